@@ -145,6 +145,10 @@ func GhostLen(name string) int           { return 0 }
 func GhostCount(name, prefix string) int { return 0 }
 func GhostReset(name string)             {}
 
+func GhostStr(name string, i, j int) string { return "" }
+func GhostInt(name string, i, j int) int    { return 0 }
+func GhostRecLen(name string, i int) int    { return 0 }
+
 // SetClosureInt / GetClosureInt give harnesses access to a variable captured by a closure (engine only):
 // used to start an inductive step from an arbitrary closure state. Natively unavailable.
 func SetClosureInt(f interface{}, name string, v int)       { panic("zzverif: closure state is engine-only") }
